@@ -2152,6 +2152,39 @@ def cmd_listings(args):
                     if int(hx[0], 16) != i.opcode:
                         acc.mismatch("C12|bytes|hex-opcode|v%s" % vs(V), file=label, offset=i.offset)
                         break
+        # the Bytecode class's own listing with the public first_line keyword: the line column must show the shifted numbers
+        # the instruction stream of the same object carries
+        try:
+            if V >= (2, 3) and len(co.co_code) <= 3000:
+                from xdis.bytecode import Bytecode
+
+                opc2 = get_opcode(version, is_pypy)
+                fl = int(co.co_firstlineno) + 100
+                bc = Bytecode(co, opc2, first_line=fl)
+                acc.evaluations += 1
+                acc.count("c12_Bytecode_dis_first_line_listings")
+                rows2, unparsed2 = parse_listing(bc.dis())
+                exp2 = [i for i in bc if i.opname != "CACHE"]
+                rows2 = [r for r in rows2 if r["op"] != "CACHE"]
+                if unparsed2:
+                    acc.mismatch("C12|Bytecode.dis(first_line)|unparseable-line|v%s" % vs(V), file=label, line=unparsed2[0][:160])
+                elif len(rows2) != len(exp2):
+                    acc.mismatch("C12|Bytecode.dis(first_line)|row-count|v%s" % vs(V), file=label, listing=len(rows2), stream=len(exp2))
+                else:
+                    for r, i in zip(rows2, exp2):
+                        if r["off"] != i.offset or r["op"] != i.opname:
+                            acc.mismatch("C12|Bytecode.dis(first_line)|row-order|v%s" % vs(V), file=label, offset=i.offset)
+                            break
+                        if r["line"] != i.starts_line:
+                            acc.mismatch("C12|Bytecode.dis(first_line)|line-number-column|v%s" % vs(V), file=label, offset=i.offset,
+                                         listing=r["line"], stream=i.starts_line, first_line=fl)
+                            break
+        except BaseException as e:
+            if isinstance(e, (KeyboardInterrupt, SystemExit)):
+                raise
+            tb = traceback.extract_tb(sys.exc_info()[2])
+            acc.mismatch("C12|Bytecode.dis(first_line)|raises:%s@%s|v%s" % (type(e).__name__, "%s:%s" % (os.path.basename(tb[-1].filename), tb[-1].name), vs(V)),
+                         file=label, msg=str(e)[:160])
         if len(acc.samples) < 3:
             acc.sample({"file": label, "version": vs(V), "formats": formats})
     return acc.result()
@@ -2900,6 +2933,13 @@ def cmd_freeze(args):
         rec = {}
         try:
             p = make_portable(ctype, c["code_len"], c.get("firstlineno", c["lines"][0]), table)
+            if c.get("refreeze"):
+                # the object has been frozen once already with another (trivial) table; the real mapping is supplied
+                # afterwards through replace() and frozen again
+                attr = "co_linetable" if ctype == "Code310" else "co_lnotab"
+                p0 = make_portable(ctype, c["code_len"], c.get("firstlineno", c["lines"][0]), {0: c.get("firstlineno", c["lines"][0])})
+                p0 = p0.freeze()
+                p = p0.replace(**{attr: table})
             p = p.freeze()
             enc = p.co_linetable if ctype == "Code310" else p.co_lnotab
             if isinstance(enc, str):
